@@ -128,8 +128,33 @@ def quiet():
     logging.disable(logging.CRITICAL)
 
 
+_PRELOADED = False
+
+
+def preload():
+    """import pydcop in the parent once, so that forked children do not pay for it"""
+    global _PRELOADED
+    if _PRELOADED:
+        return
+    _PRELOADED = True
+    import warnings
+    warnings.simplefilter("ignore")
+    import pydcop.infrastructure.run  # noqa
+    import pydcop.infrastructure.orchestrator  # noqa
+    import pydcop.dcop.scenario  # noqa
+    from pydcop.algorithms import load_algorithm_module
+    for a in ("dpop", "mgm", "dsa", "mgm2"):
+        load_algorithm_module(a)
+    import pydcop.computations_graph.pseudotree  # noqa
+    import pydcop.computations_graph.constraints_hypergraph  # noqa
+    import pydcop.replication.dist_ucs_hostingcosts  # noqa
+    for dm in ("oneagent", "adhoc", "gh_cgdp"):
+        __import__("pydcop.distribution." + dm)
+
+
 def run_isolated(fn, case, hard_timeout=150):
     """fork; the child runs fn(case) and sends its JSON result through a pipe."""
+    preload()
     r, w = os.pipe()
     pid = os.fork()
     if pid == 0:
